@@ -1,5 +1,5 @@
 """C09 -- scheduler core (work in progress: metadata filled in below)."""
-from props.common import contract_tasks, lemma_tasks, TRUSTED_CORE, SCHED_ASSUMPTIONS
+from props.common import other_tasks, contract_tasks, lemma_tasks, TRUSTED_CORE, SCHED_ASSUMPTIONS
 
 PROPERTY = "C09"
 
@@ -8,7 +8,7 @@ def tasks(tier):
     return contract_tasks("contracts.scheduler", "C09", tier=tier) + contract_tasks("contracts.sim_process", "C09", tier=tier) \
         + contract_tasks("contracts.run_prelude", "C09", tier=tier) + contract_tasks("contracts.shutdown", "C09", tier=tier) \
         + contract_tasks("contracts.groups", "C11", tier=tier) + lemma_tasks("contracts.groups", "C11") \
-        + contract_tasks("contracts.tiered_time", "C08")
+        + contract_tasks("contracts.tiered_time", "C08") + other_tasks("contracts.connect_bounded", "C09", "bounded")
 
 
 TRUSTED_BASE = TRUSTED_CORE
